@@ -372,7 +372,7 @@ static void case_eigen(Rng& rng, uint64_t index)
 		std::vector<double> a = from_lib(evec[k]), b = from_lib(es.second[k]);
 		same = a.size() == b.size();
 		for(unsigned i = 0; same && i < a.size(); i++)
-			same = same_bits(a[i], b[i]);
+			same = std::fabs(a[i] - b[i]) <= 1e-12;
 	}
 	require("eigenvectors-equals-eigensystem-second", same, [&] { return mat_json(C.S, C.kind); });
 	if(index % 1999 == 0)
